@@ -331,6 +331,91 @@ for _fn, _kinds in (("_read_gcf", ("one",)), ("_read_mseed", ("one", "three"))):
             TASKS.append(FunctionTask(_c, module_env=dict(_OB_ENV, str=_STRCLS), label=f"hvsrpy.data_wrangler.{_fn}[{_kind} file{'s' if _kind == 'three' else ''},degrees_from_north={'given' if _dg else 'None'}]",
                                       clauses=["obspy formats: three traces required, components assigned by _arrange_traces, orientation default 0"]))
 
+# ---------------------------------------------------------------------------------------------------------------------
+# read(): each recording gets its own file name(s), reader options and orientation, in order - options / orientation given once are repeated, given per
+# recording they are taken position by position; a one-element list of names is unwrapped.  read_single is opaque: RS(file, options, orientation).
+from pyvc.core import SeqV
+NF = z3.Int("n_recordings")
+FID = z3.Function("file_entry", I, I)
+KWL = z3.Function("options_of_recording", I, I)
+DGL = z3.Function("orientation_of_recording", I, R)
+KW1, DG1 = z3.Int("options_given_once"), z3.Real("orientation_given_once")
+RSF = z3.Function("READ_SINGLE", I, I, R, I)
+NONE_KW, NONE_DG = z3.IntVal(-1), z3.RealVal(-12345)       # codes of `None` in the opaque call
+
+
+def _code_kw(v):
+    if isinstance(v, SeqV):
+        return z3.Int("a_whole_sequence_of_options_instead_of_one")
+    return NONE_KW if v is NONE else lit(v)
+
+
+def _code_dg(v):
+    if isinstance(v, SeqV):
+        return z3.Real("a_whole_sequence_of_orientations_instead_of_one")
+    return NONE_DG if v is NONE else real_c07(v)
+
+
+from pyvc.core import real as real_c07
+
+
+def _m_read_single(ex, st, args, kw, node):
+    return RSF(lit(args[0]), _code_kw(kw["obspy_read_kwargs"]), _code_dg(kw["degrees_from_north"]))
+
+
+def _m_repeat(ex, st, args, kw, node):
+    inf = ex.fresh("unbounded", I)
+    st.pc.append(inf >= NF)
+    x = args[0]
+    return SeqV(inf, lambda ex_, st_, i: x, owner="fresh", name="repeat")
+
+
+def _read_inputs(kwk, dgk):
+    def mk(ex, st):
+        st.env["fnames"] = SeqV(NF, lambda ex_, st_, i: FID(i), owner="param:fnames", name="fnames")
+        st.env["obspy_read_kwargs"] = {"None": NONE, "once": KW1, "each": SeqV(NF, lambda ex_, st_, i: KWL(i), owner="param:obspy_read_kwargs", name="kw")}[kwk]
+        st.env["degrees_from_north"] = {"None": NONE, "once": DG1, "each": SeqV(NF, lambda ex_, st_, i: DGL(i), owner="param:degrees_from_north", name="deg")}[dgk]
+        st.env["NF"] = NF
+        return [NF >= 0]
+    return mk
+
+
+class _KwOnce:
+    pass
+
+
+def _isinstance_read(ex, st, args, kw, node):
+    """the options object given once is a dict (an opaque id here); everything else is decided by the generic model"""
+    v, c = args
+    classes = list(c) if isinstance(c, (Tup, tuple)) else [c]
+    names = {x.name for x in classes}
+    if z3.is_expr(lit(v)) if not isinstance(v, (SeqV, StrV, Tup, DictV)) and v is not NONE else False:
+        if lit(v).eq(KW1):
+            return z3.BoolVal("dict" in names)
+    if v is NONE:
+        return z3.BoolVal("NoneType" in names)
+    return npm.BUILTINS["isinstance"].fn(ex, st, args, kw, node)
+
+
+_READ_ENV = {"list": ClsV("list"), "tuple": ClsV("tuple"), "dict": ClsV("dict"), "int": ClsV("int"), "float": ClsV("float"),
+             "type": FuncV(lambda ex, st, a, k, n_: ClsV("NoneType") if a[0] is NONE else (_ for _ in ()).throw(Undecided("type() of a value other than None")), "type"),
+             "np": ModV("np", dict(npm.NP.attrs, integer=ClsV("np.integer"), floating=ClsV("np.floating"))),
+             "itertools": ModV("itertools", {"repeat": FuncV(_m_repeat, "itertools.repeat")}), "read_single": FuncV(_m_read_single, "read_single"),
+             "isinstance": FuncV(_isinstance_read, "isinstance"), "warnings": ModV("warnings", {"warn": FuncV(lambda ex, st, a, k, n_: NONE, "warnings.warn")})}
+for _kwk in ("None", "once", "each"):
+    for _dgk in ("None", "once", "each"):
+        _kwi = {"None": "NONE_KW", "once": "KW1", "each": "KWL(i)"}[_kwk]
+        _dgi = {"None": "NONE_DG", "once": "DG1", "each": "DGL(i)"}[_dgk]
+        _c = Contract(qual="hvsrpy.data_wrangler.read", params=["fnames", "obspy_read_kwargs", "degrees_from_north"],
+                      ghost={"RS": RSF, "FID": FID, "KWL": KWL, "DGL": DGL, "KW1": KW1, "DG1": DG1, "NONE_KW": NONE_KW, "NONE_DG": NONE_DG, "NF": NF},
+                      make_inputs=_read_inputs(_kwk, _dgk), sym_lists={"seismic_recordings": "int"},
+                      ensures=["len(result) == NF", f"forall(i, 0, NF, result[i] == RS(FID(i), {_kwi}, {_dgi}))"],
+                      loops={0: ["len(seismic_recordings) == _k0", f"forall(i, 0, _k0, seismic_recordings[i] == RS(FID(i), {_kwi}, {_dgi}))"]}, modifies=[],
+                      notes="recording i = read_single(entry i of fnames, the options of recording i, the orientation of recording i): given once they are repeated, given per "
+                            "recording they are taken position by position")
+        TASKS.append(FunctionTask(_c, module_env=_READ_ENV, label=f"hvsrpy.data_wrangler.read[options={_kwk},orientation={_dgk}]",
+                                  clauses=["read() hands each recording its own orientation and reader options, in order"]))
+
 META = dict(
     level="other",
     explanation="proved: _check_npts raises iff the counts differ; _arrange_traces for three traces and all 64 combinations of channel-code endings "
